@@ -103,6 +103,25 @@ def inCClass (k : CClass) (c : Nat) : Bool :=
 /-- index of the first occurrence (`wcschr`) -/
 def idxOf (x : Nat) (l : List Nat) : Option Nat := l.findIdx? (· == x)
 
+/-- `[:name:]`, `[.x.]`, `[=x=]` at the head of `p` (inside a bracket expression):
+    `none` = not of that form (`parse_fail`), `some none` = `match_class` returns NULL,
+    `some (some (rest, cls))` = a known class; the walk continues at `rest` -/
+def namedClass (p : List Nat) : Option (Option (List Nat × CClass)) :=
+  match p with
+  | 91 :: x :: n1 =>
+    if x = 58 ∨ x = 46 ∨ x = 61 then
+      match idxOf x n1 with
+      | none => none                                   -- parse_fail
+      | some k =>
+        if n1.getD (k + 1) 0 ≠ cRB then none           -- parse_fail
+        else if x ≠ 58 then some none
+        else
+          match cclassOf (n1.take k) with
+          | none => some none
+          | some cls => some (some (n1.drop (k + 2), cls))
+    else none
+  | _ => none
+
 /-! ## the mirror of `match_class` -/
 
 /-- `match_class` from label `loop:` on.  `p` = rest of the pattern, `atStart` ⇔ `p == start`,
@@ -113,24 +132,9 @@ def classLoop (fl : FnFlags) (c : Nat) (neg : Bool) (pat0 : List Nat) :
   | 0, _, _, _, _ => none
   | f + 1, p, atStart, matched, fallbackOk =>
     -- named class, equivalence class or collating symbol
-    let named : Option (Option (List Nat × Bool)) :=      -- some none = return NULL
-      match p with
-      | 91 :: x :: n1 =>
-        if x = 58 ∨ x = 46 ∨ x = 61 then
-          match idxOf x n1 with
-          | none => none                                   -- parse_fail
-          | some k =>
-            if n1.getD (k + 1) 0 ≠ cRB then none           -- parse_fail
-            else if x ≠ 58 then some none
-            else
-              match cclassOf (n1.take k) with
-              | none => some none
-              | some cls => some (some (n1.drop (k + 2), inCClass cls c))
-        else none
-      | _ => none
-    match named with
+    match namedClass p with
     | some none => none
-    | some (some (rest, m)) => classLoop fl c neg pat0 f rest false (matched || m) false
+    | some (some (rest, cls)) => classLoop fl c neg pat0 f rest false (matched || inCClass cls c) false
     | none =>
       match p with
       | [] => if fallbackOk && c == cLB then some pat0 else none
@@ -260,22 +264,7 @@ def parseClass (fl : FnFlags) :
     (fuel : Nat) → (p : List Nat) → (atStart fallbackOk : Bool) → (acc : List CItem) → BrParse
   | 0, _, _, _, _ => .never
   | f + 1, p, atStart, fallbackOk, acc =>
-    let named : Option (Option (List Nat × CClass)) :=
-      match p with
-      | 91 :: x :: n1 =>
-        if x = 58 ∨ x = 46 ∨ x = 61 then
-          match idxOf x n1 with
-          | none => none
-          | some k =>
-            if n1.getD (k + 1) 0 ≠ cRB then none
-            else if x ≠ 58 then some none
-            else
-              match cclassOf (n1.take k) with
-              | none => some none
-              | some cls => some (some (n1.drop (k + 2), cls))
-        else none
-      | _ => none
-    match named with
+    match namedClass p with
     | some none => .never
     | some (some (rest, cls)) => parseClass fl f rest false false (acc ++ [.named cls])
     | none =>
